@@ -46,9 +46,10 @@ Record info := mkI {
   ovf : bool;             (* style['overflow'] != 'visible' *)
   clp : bool;             (* style['clip'] non-empty *)
   git : bool;             (* is_grid_item *)
-  col : bool;             (* style['border_collapse'] == 'collapse' (tables) *)
+  col : bool;             (* style['border_collapse'] == 'collapse' (tables, and cells: the property is inherited) *)
   hid : bool;             (* cell: empty_cells != 'show' and cell.empty *)
-  rcl : bool              (* is_for_root_element and page.style['overflow'] != 'visible' *)
+  rcl : bool;             (* is_for_root_element and page.style['overflow'] != 'visible' *)
+  fit : bool              (* is_flex_item *)
 }.
 
 Inductive box := Box (i : info) (kids : list box).
@@ -84,6 +85,9 @@ Definition static (i : info) : bool := match pos i with PStatic => true | _ => f
 Definition abspos (i : info) : bool := match pos i with PAbsolute | PFixed => true | _ => false end.
 Definition has_z (i : info) : bool := match zi i with Some _ => true | None => false end.
 Definition z_of (i : info) : Z := match zi i with Some z => z | None => 0 end.
+(* StackingContext.__init__ (after /repo 673f68d): z-index only applies to positioned boxes, flex and grid items;
+   `if self.z_index == 'auto' or not applies: self.z_index = 0` *)
+Definition zctx (i : info) : Z := if negb (static i) || fit i || git i then z_of i else 0.
 
 (* _dispatch: defines_stacking_context *)
 Definition defines_ctx (i : info) : bool :=
@@ -118,7 +122,7 @@ Definition mk_ctx (i : info) (kids children blocks floats bcs : list pnode) : pn
      (sort_z ctx_z (filter (fun c => ctx_z c <? 0) children))
      (filter (fun c => ctx_z c =? 0) children)
      (sort_z ctx_z (filter (fun c => negb (ctx_z c <? 0) && negb (ctx_z c =? 0)) children))
-     blocks floats bcs (z_of i).
+     blocks floats bcs (zctx i).
 
 Record dst := mkS { s_cc : list pnode; s_bl : list pnode; s_fl : list pnode; s_bc : list pnode }.
 Definition st0 : dst := mkS [] [] [] [].
@@ -207,6 +211,9 @@ Inductive event :=
 | ESet (id : Z) (g : gstate)         (* clip / cm: lasts until the innermost open bracket closes *)
 | EAssert (id : Z).                  (* an assert of the Python code fails / attribute error *)
 
+(* point 2 (after /repo 5ad683d): draw_border is skipped for a TableCellBox whose border_collapse is 'collapse' *)
+Definition own_border (i : info) : list event := if is_cell (knd i) && col i then [] else [EPaint (bid i) LBorder].
+
 Inductive pmode :=
 | MCtx        (* draw_stacking_context(ctx) *)
 | MInline     (* draw_inline_level(node) *)
@@ -257,7 +264,7 @@ Fixpoint paint (m : pmode) (n : pnode) {struct n} : list event :=
         | _ =>
           (if opa i then [EOpen id BGroup] else []) ++
           (match tm i with TRegular => [ESet id GTransform] | _ => [] end) ++
-          (if point2_class (knd i) then [EPaint id LBg; EPaint id LBorder] else []) ++
+          (if point2_class (knd i) then EPaint id LBg :: own_border i else []) ++
           EOpen id BInner ::
           (if ovf i && negb (is_page (knd i)) then [ESet id GClip] else []) ++
           flat_map (paint MCtx) neg ++                                   (* point 3 *)
@@ -328,7 +335,7 @@ Definition info_eqb (a b : info) : bool :=
   (bid a =? bid b) && kind_eqb (knd a) (knd b) && pos_eqb (pos a) (pos b) && Bool.eqb (flt a) (flt b) &&
   oz_eqb (zi a) (zi b) && Bool.eqb (opa a) (opa b) && Bool.eqb (trf a) (trf b) && tmat_eqb (tm a) (tm b) &&
   Bool.eqb (ovf a) (ovf b) && Bool.eqb (clp a) (clp b) && Bool.eqb (git a) (git b) &&
-  Bool.eqb (col a) (col b) && Bool.eqb (hid a) (hid b) && Bool.eqb (rcl a) (rcl b).
+  Bool.eqb (col a) (col b) && Bool.eqb (hid a) (hid b) && Bool.eqb (rcl a) (rcl b) && Bool.eqb (fit a) (fit b).
 
 Fixpoint list_eqb {A} (eq : A -> A -> bool) (a b : list A) : bool :=
   match a, b with
